@@ -153,6 +153,8 @@ class Exec:
                 ty = self.fn.locals.get(place, "?")
                 if getattr(self, "havoc", False) and ty != "?":
                     env[place] = self.typed_fresh(f"{self.fn.name.split('::')[-1]}:{place}", ty)
+                    if env[place][0] == "bv" and env[place][2] == 64 and getattr(self, "havoc_bound", None):
+                        self.ctx.assume(f"counter {place} < 2^48", f"(bvult {env[place][1]} (_ bv{self.havoc_bound} 64))")
                     return env[place]
                 raise Unsupported(f"read of unassigned local {place}: {ty} in {self.fn.name}")
             return env[place]
